@@ -17,3 +17,10 @@ PROP = {
         "abstractions that only add behaviours: writeMu not modelled, unbounded async queue, lifecycle actions enabled whenever structurally possible",
     ],
 }
+
+
+MANIFEST = {
+    "text": "Coq theorems over all runs: no byte of a data send refused at the B1 read or the B2 write-boundary re-check ever reaches a socket, the result is NotSelected (NotOpen before the first Open, with no counter change), the drop counter equals the number of not-selected refusals, control sends are not gated; inbound data while not Selected gets exactly one Reject(4) echoing session id and system bytes, no handler call, link untouched; an orphan Select.rsp does not select; every data frame behind the establishing Select.req / Select.rsp(0) is dispatched with state Selected for all quiet interleavings, and a length-prefixed reader fed the stream in arbitrary chunks yields exactly the frames in order (any write-size grouping). Tied by an e2e matrix (8 not-selected conditions x 7 entry points x 2 roles: result class, drop-counter delta, bytes seen by the peer, inbound Reject(4)), pipelining at every cut point, and gate scenarios (incl. the B2 re-check through the code's after-write-lock seam) compared for equality with the model; the extracted ok_C07 judges every log.",
+    "note": "The log-level inbound matching clause of the monitor (greedy attribution of Reject(4) to frames) is used as a tie only, not proved for all runs. Assumes C05's theorem that the state word changes only at commits and disconnect steps.",
+    "technique": 'Rocq/Coq proof (inductive invariant over an executable LTS) + extracted monitor over e2e logs + deterministic scenario equality',
+}
